@@ -654,8 +654,7 @@ func (fx *FnExec) havocCall(st *State, fr *frame, tgt callTarget, sig *types.Sig
 	}
 	// anything may have been allocated
 	na := fx.freshConst("alloc", "Int")
-	st.assume("(>= " + na + " " + st.alloc + ")")
-	st.alloc = na
+	st.bumpAlloc(na)
 	for i := range results {
 		st.assumeWF(results[i], rs.At(i).Type())
 	}
@@ -877,6 +876,7 @@ func (fx *FnExec) applyContract(st *State, fr *frame, tgt callTarget, sig *types
 		fx.iterateCallback(st, fr, tgt, args, site, ordName)
 	}
 	// havoc modifies
+	vacPre := len(st.pc)
 	old := st.snapshotHeap()
 	{
 		// modifies targets denote locations of the pre-state
@@ -898,8 +898,7 @@ func (fx *FnExec) applyContract(st *State, fr *frame, tgt callTarget, sig *types
 	// allocation may have happened
 	allocBefore := st.alloc
 	na := fx.freshConst("alloc", "Int")
-	st.assume("(>= " + na + " " + st.alloc + ")")
-	st.alloc = na
+	st.bumpAlloc(na)
 	// what the callee wrote is again a well-formed heap
 	for _, name := range sortedTermKeys(st.heap) {
 		if old[name] == st.heap[name] {
@@ -936,6 +935,8 @@ func (fx *FnExec) applyContract(st *State, fr *frame, tgt callTarget, sig *types
 		}
 	}
 	env.old = old
+	env.entryAlloc = allocBefore
+	env.calleeView = map[string]Term{}
 	for _, g := range fc.GhostVars {
 		// the callee's ghost locals are existentially quantified for the caller
 		rs, rt := env.resolveType(g.Type)
@@ -953,6 +954,9 @@ func (fx *FnExec) applyContract(st *State, fr *frame, tgt callTarget, sig *types
 	}
 	if tgt.key == "(*sync.WaitGroup).Wait" && len(args.terms) > 0 {
 		fx.joinGoroutines(st, args.terms[0])
+	}
+	if !fc.NoReturn {
+		fx.vacuityStep(st, fr, ordName, vacPre)
 	}
 	k(st, results)
 }
@@ -1373,8 +1377,7 @@ func (fx *FnExec) iterateCallback(st *State, fr *frame, tgt callTarget, args *ca
 		}
 	}
 	na := fx.freshConst("alloc@iter", "Int")
-	st.assume("(>= " + na + " " + st.alloc + ")")
-	st.alloc = na
+	st.bumpAlloc(na)
 	if cfc != nil {
 		env := mkEnv(st)
 		for _, c := range cfc.Requires {
